@@ -49,8 +49,11 @@ def _wrap(draw, s, depth=0, pos="root"):
         return s
     if draw(st.integers(0, 2)) == 0:
         out = {"t": "custom", "spec": s, "pos": pos, "depth": depth}
-        if draw(st.integers(0, 2)) == 0:
+        kind = draw(st.integers(0, 3))
+        if kind == 0:
             out["sub"] = True       # a custom type that subclasses another (already used) custom type
+        elif kind == 1:
+            out["own"] = True       # checks the value's kind itself (an error of its own at the path it was handed)
         return out
     return s
 
@@ -65,6 +68,7 @@ def _make_strict(s):
     s = dict(s)
     if s["t"] == "custom":
         s.pop("sub", None)
+        s.pop("own", None)
         s["strict"] = True
     for k in ("elem", "spec"):
         if k in s and isinstance(s[k], dict) and "t" in s[k]:
